@@ -21,7 +21,7 @@ RULE = (
     "one interior point dropped and one kept; distinct by canonical JSON."
 )
 ASSUMPTIONS = [
-    "clean: rows >= 1e-3 K apart, enthalpy steps are 0 or >= 0.05 (nothing inside the 1e-6 tolerance band except exact repeats)",
+    "clean: distinct rows >= 1e-3 K apart (exact repeats of a row allowed), enthalpy steps are 0 or >= 0.05 (nothing inside the 1e-6 tolerance band except exact repeats)",
     "linearise: the one-sided bound is evaluated where enthalpy is strictly monotone (no vertical steps), at the abscissae of both polylines",
     "distances are Euclidean in the (h, T) plane as used by the routine itself (perpendicular distance of Ramer-Douglas-Peucker)",
 ]
@@ -94,9 +94,9 @@ def drift_possible(ext) -> bool:
 
     def local(i):
         (x1, y1), (x2, y2), (x3, y3) = ext[i - 1], ext[i], ext[i + 1]
-        if x1 == x3:
-            return x1 == x2
-        return abs(y2 - (y1 + (y3 - y1) * (x2 - x1) / (x3 - x1))) <= 1e-6
+        if x1 == x2 or x2 == x3 or x1 == x3:
+            return False  # vertical steps / repeated rows are not the gentle-curvature mechanism of this finding
+        return abs(y2 - (y1 + (y3 - y1) * (x2 - x1) / (x3 - x1))) <= 3e-6  # generous: the rule's reference chord may start at an earlier kept point
 
     i = 1
     while i < n - 1:
@@ -120,6 +120,8 @@ def eval_clean(case) -> Outcome:
     out = Outcome()
     T, H = case["T"], case["H"]
     n = len(T)
+    if "repeats" in case.get("shape", ""):
+        out.labels.add("repeated-points")
     ok, res = call_sut(clean_composite_curve, list(T), list(H))
     if not ok:
         out.fail("C17.sut_exception:" + res, f"clean_composite_curve raised {res}: {call_sut.last_message}")
@@ -211,6 +213,21 @@ def composite_curve(draw, tier):
         H[i] = H[min(lead, n - 2)]
     for i in range(min(trail, n - 2)):
         H[n - 1 - i] = H[n - 1 - min(trail, n - 2)]
+    # a vertical run whose lower end is a repeated row (seen in pipeline tables around isothermal streams)
+    if shape in ("kinks", "steps") and n >= 5 and draw(st.integers(0, 2)) == 0:
+        k = draw(st.integers(lead + 1, n - trail - 2)) if n - trail - 2 >= lead + 1 else None
+        if k is not None and H[k] != H[k + 1]:
+            H[k] = H[k - 1]
+            T.insert(k, T[k])
+            H.insert(k, H[k])
+            shape += "+corner-repeats"
+    # repeated points: table rows that coincide after the pipeline's 4-dp rounding
+    if shape in ("kinks", "steps") and draw(st.booleans()):
+        for _ in range(draw(st.integers(1, 3))):
+            k = draw(st.integers(0, len(T) - 1))
+            T.insert(k, T[k])
+            H.insert(k, H[k])
+        shape += "+repeats"
     return {"T": T, "H": H, "shape": shape}
 
 
